@@ -2156,6 +2156,65 @@ class C17(Prop):
                 cmin = acc() * F(9, 10) if can else F(0)
         return {"lines": lines, "note": "real display: canary record moves while the observation window stands still"}
 
+    # pairs of agent numbers whose ids collide under a customary canonicalisation, per spelling scheme
+    LOOKALIKE = {"case": [(0, 1), (0, 2), (1, 2), (0, 3)], "nfc": [(0, 1), (0, 2), (0, 3)], "num": [(0, 1), (0, 2), (0, 3)],
+                 "sub": [(0, 2), (0, 1), (0, 3), (1, 2)]}
+
+    def case_lookalike(self, rng):
+        """two agents whose ids differ only in case / Unicode normal form / white space / a leading zero / by being a prefix
+        or the empty string, with the SAME behaviour and the same hashes: what one of them lived through (a threat confirmed
+        and remembered, a manual flag, an anomaly streak, false alarms up to anergy, a training) is not the other's"""
+        scheme = rng.choice(list(self.LOOKALIKE))
+        x, y = rng.choice(self.LOOKALIKE[scheme])
+        if rng.random() < 0.5:
+            x, y = y, x
+        rules = [f"{rng.choice(LEVELS)}:{rng.choice(CONDS[:-1])}" for _ in range(rng.choice([0, 0, 0, 1]))]
+        lines = [" ".join(["sys", str(rng.choice([10, 3, 1])), "2", "1/2", str(rng.choice([100, 100, 2])),
+                           str(rng.choice([1000, 1000, 2]))] + rules), f"ids {scheme}"]
+        sc = pick_scale(rng)
+        base = self.grid_fp(rng, vocab=1, sc=sc)[:9] + (None,)
+        threat = base[:2] + (base[2] + F(8) * sc[3],) + base[3:]
+        show = lambda a, fp: f"show {a} " + " ".join(fp_tokens(fp))
+        for a in (x, y):
+            lines += [f"reg {a}", show(a, base), f"train {a}"]
+        how = rng.choice(["memory", "memory", "flag", "streak", "anergy", "untrained", "retrain"])
+        if how == "memory":
+            lines += [f"pflag {x} 1", show(x, threat), f"pinspect {x}"] + [f"pinspect {x}"] * rng.choice([0, 1])
+            if rng.random() < 0.5:
+                lines.append(f"preset {x}")
+        elif how == "flag":
+            lines += [f"pflag {x} 1"]
+        elif how == "streak":
+            lines += [show(x, threat)] + [f"pinspect {x}"] * rng.choice([2, 2, 3])
+        elif how == "anergy":
+            for _ in range(5):
+                lines += [show(x, threat), f"pinspect {x}", f"presetfa {x}"]
+        elif how == "untrained":
+            lines = lines[:-1]                                   # y registered and showing, never trained
+            lines += [f"pflag {x} 1", show(x, threat), f"pinspect {x}"]
+        else:
+            wide = base[:2] + (base[2] + F(8) * sc[3],) + base[3:]
+            lines += [show(x, wide), f"train {x}", f"pinspect {x}"]      # x is retrained on the slow behaviour; y is not
+        lines += [show(y, threat), f"pinspect {y}"]
+        if rng.random() < 0.6:
+            lines += [f"pinspect {y}"]
+        if rng.random() < 0.5:
+            lines += [show(y, base), f"pinspect {y}", show(x, threat), f"pinspect {x}"]
+        if rng.random() < 0.3:
+            lines += self.polls(rng)
+        return {"lines": lines, "note": f"look-alike agent ids ({scheme}), one agent's history is not the other's ({how})"}
+
+    def dedicated(self, rng):
+        """one batch of the families that need something specific to manifest, ahead of the random mixture: whatever the
+        load of the machine does to the time budget, each of these axes is driven on every run"""
+        out = [self.case_lookalike(rng) for _ in range(14)]
+        out += [self.case_display_canary(rng) for _ in range(12)]
+        for fam in (self.case_pipeline_polled, self.case_pipeline_forget, self.case_pipeline_repeat, self.case_pipeline_anergy,
+                    self.case_display_full):
+            out += [fam(rng) for _ in range(4)]
+        out += [self.case_display(rng) for _ in range(8)]
+        return [c for c in out if c is not None]
+
     def case_malformed(self, rng):
         junk = ["", "inspect", "inspect 1 2 3", "tcell 3 5", "evaluate none", "expire 1", "pruneold", "updated", "reimport 1", "pinspect", "show 0", "train", "frobnicate 1",
                 "ttrain 0 0 0", "treset", "flag 1", "check 1 2 3 4 5 6 7 8 9 none", "sample 1 2"]
@@ -2164,9 +2223,16 @@ class C17(Prop):
 
     def generate(self, rng, tier, n):
         produced = 0
+        for c in self.dedicated(rng):
+            if produced >= n:
+                return
+            produced += 1
+            yield c
         while produced < n:
             x = rng.random()
-            if x < 0.03:
+            if x < 0.015:
+                c = self.case_lookalike(rng)
+            elif x < 0.03:
                 c = self.case_pipeline_polled(rng)
             elif x < 0.06:
                 c = self.case_pipeline_forget(rng)
